@@ -215,6 +215,9 @@ func RunSeq(s *kernel.Sim, prof *Profile) *Env {
 			}
 		}
 	}
+	if e.stallSeen {
+		time.Sleep(12 * time.Minute) // nothing of a slow flush is left in flight when the run ends
+	}
 	if !s.Failed() && soak > 0 {
 		e.soak(soak)
 	}
@@ -463,6 +466,17 @@ func (e *Env) step(st *seqState, c *Caller, op model.Op, cor *Corruption, whoFau
 		setFileSizeLimit(0)
 		setNoFileLimit(false)
 	}
+	e.Sink.mu.Lock()
+	stalled, stallD := e.Sink.Stalled, e.Sink.StallD
+	e.Sink.mu.Unlock()
+	if stalled {
+		// the audit log was slow during this call: if the server gave up
+		// waiting, whatever it left behind (a handler still running, a flush
+		// still in flight - possibly holding the database lock) has finished
+		// by the time anything is judged
+		e.stallSeen = true
+		time.Sleep(stallD + time.Second)
+	}
 	e.seqOp = nil
 	e.Sink.OnWrite, e.Sink.OnSync = nil, nil
 	hr := e.seqHTTP
@@ -676,7 +690,7 @@ func (e *Env) step(st *seqState, c *Caller, op model.Op, cor *Corruption, whoFau
 		if got, err := e.Observe(); err != nil || got != e.Model.DumpVisible() {
 			e.fail("denied", "%s: denied call changed state (%v)", desc, err)
 		}
-		if !illFormed && res.Class == model.AccessDenied && cor == nil && whoFault == 0 {
+		if !illFormed && res.Class == model.AccessDenied && cor == nil && whoFault == 0 && !stalled {
 			text := res.ErrText
 			if hr != nil {
 				text = fmt.Sprintf("%d %q", hr.Status, hr.Body)
@@ -692,11 +706,7 @@ func (e *Env) step(st *seqState, c *Caller, op model.Op, cor *Corruption, whoFau
 
 	// ---- the audit log was slow (not failing): a server may give up waiting
 	// and fail the call - closed, i.e. nothing takes effect, not even later ----
-	e.Sink.mu.Lock()
-	stalled, stallD := e.Sink.Stalled, e.Sink.StallD
-	e.Sink.mu.Unlock()
 	if stalled && res.Class == model.OtherError && !ctx.AuditFail {
-		time.Sleep(stallD + time.Second) // whatever was left behind has finished by then
 		if !bytes.Equal(e.ReadFile(), ctx.PreFile) {
 			e.fail("state", "%s: the call failed (%s) while the audit log was slow, but the database file changed (then or afterwards)", desc, res)
 		}
